@@ -531,3 +531,118 @@ def fixed_type(S, ob, t):
                     goals.append(T.implies(p.cond(), T.and_(T.eq(rs.off, off), T.eq(rs.len, fixed_size(ft)))))
             S.prove(ctx, ob, f"{t}.{fname}_is_the_field_at_offset_{off}", [ok_s], T.and_(*goals))
             off += fixed_size(ft)
+
+
+# ------------------------------------------------------------------ encode side: builders
+def builder_fn(S, t, name):
+    c = [f for f in S.prog.by_short.get(name, []) if re.search(r"Builder for " + t + r"Builder\s*$", (f.impl_header or "").strip())]
+    if len(c) != 1:
+        raise Inconclusive(f"{t}Builder::{name}: {len(c)} candidates")
+    return c[0]
+
+
+def builder_layout(S, ob, t):
+    """`TBuilder::write` emits exactly the canonical layout over its fields' bytes (header numbers derived from the field lengths,
+    fields back to back in declaration order): the encode half of the round trip, for lengths below 2^32"""
+    from mir2smt import envlib as E
+    from mir2smt.builtins import deref
+    from mir2smt.exec import mk_result
+    tt = TYPES[t]
+    k = tt["kind"]
+    variants = [None]
+    if k == "vector":
+        variants = [0, 1, 2]          # number of items in the builder
+    elif k == "option":
+        variants = ["none", "some"]
+    elif k == "union":
+        variants = list(range(len(tt["items"])))
+    for var in variants:
+        ctx = S.ctx()
+        ctx.uninterpreted_unknown_calls = True
+        ctx.unwind = 40
+        LIM = 1 << 28
+
+        def as_slice(ex, callee, args, dty):
+            a = deref(ex, args[0])
+            nm = getattr(a, "name", None) or "anon"
+            ln = ctx.int("len." + nm, "usize")
+            ctx.add_side(T.le(ln.t, LIM))
+            return SliceV("bytes." + nm, 0, ln.t)
+
+        def pack(ex, callee, args, dty):
+            return AggV((args[0],), "packed_number")
+
+        def write_all(ex, callee, args, dty):
+            a = deref(ex, args[1])
+            if isinstance(a, AggV) and a.ty == "packed_number":
+                ex.log.append(("num", callee, [a.fields[0]], list(ex.pc)))
+            elif isinstance(a, SliceV):
+                ex.log.append(("bytes", callee, [a], list(ex.pc)))
+            else:
+                ex.log.append(("other", callee, [a], list(ex.pc)))
+            return mk_result(True, UNIT, None, dty)
+
+        ctx.env = [
+            (E.rx(r"Entity>::as_slice$|prelude::Byte::as_slice$|Byte as .*Entity>::as_slice$"), as_slice),
+            (E.rx(r"(^|::)pack_number$"), pack),
+            (E.rx(r"Write>::write_all$"), write_all),
+            (E.rx(r"as Deref>::deref$"), lambda ex, c, a, d: a[0]),
+        ]
+        fn = builder_fn(S, t, "write")
+        # the builder value
+        if k in ("table", "struct"):
+            b = OpaqueV("b", t + "Builder")
+            fields = [OpaqueV(f"b.{i}", ft) for i, (_, ft) in enumerate(tt["fields"])]
+        elif k == "vector":
+            items = tuple(OpaqueV(f"item{i}", tt["item"]) for i in range(var))
+            b = AggV((ListV(items, "Vec<" + tt["item"] + ">"),), t + "Builder")
+            fields = list(items)
+        elif k == "option":
+            inner = OpaqueV("inner", tt["item"])
+            b = AggV((EnumV(1, ((1, (inner,)),), "Option") if var == "some" else EnumV(0, (), "Option"),), t + "Builder")
+            fields = [inner] if var == "some" else []
+        elif k == "union":
+            it, num = tt["items"][var]
+            inner = OpaqueV("inner", it)
+            b = AggV((EnumV(var, ((var, (inner,)),), t + "Union"),), t + "Builder")
+            fields = [inner]
+        elif k == "array":
+            return 0
+        else:
+            return 0
+        ps = S.run(ctx, fn, [ctx.ref_to(b), ctx.ref_to(OpaqueV("w", "W"))], allow=("return", "panic", "unwind"))
+        tag = f"{t}Builder" + ("" if var is None else f"[{var}]")
+        S.prove(ctx, ob, f"{tag}_write_never_panics_below_2_28_bytes_per_field", [], T.not_(T.or_(*[p.cond() for p in ps if p.outcome != "return"])))
+        lens = [ctx.int("len." + f.name, "usize").t for f in fields]
+        for kk, p in enumerate([p for p in ps if p.outcome == "return"]):
+            nums = [e for e in p.log if e[0] == "num"]
+            byts = [e for e in p.log if e[0] == "bytes"]
+            order_ok = [e[0] for e in p.log if e[0] in ("num", "bytes")] == ["num"] * len(nums) + ["bytes"] * len(byts) and not [e for e in p.log if e[0] == "other"]
+            names = [e[2][0].buf for e in byts]
+            want_names = ["bytes." + f.name for f in fields]
+            c = [p.cond()]
+            n = len(fields)
+            if k == "table" or (k == "vector" and fixed_size(tt["item"]) is None):
+                if n == 0:
+                    goal = T.and_(bool(order_ok and len(nums) == 1 and names == want_names), T.eq(as_int(nums[0][2][0]), 4))
+                else:
+                    offs = [4 * (n + 1)]
+                    for l in lens:
+                        offs.append(T.add(offs[-1], l))
+                    g = [bool(order_ok and len(nums) == n + 1 and names == want_names)]
+                    if len(nums) == n + 1:
+                        g.append(T.eq(as_int(nums[0][2][0]), offs[n]))
+                        for i in range(n):
+                            g.append(T.eq(as_int(nums[1 + i][2][0]), offs[i]))
+                    goal = T.and_(*g)
+            elif k == "vector":
+                goal = T.and_(bool(order_ok and len(nums) == 1 and names == want_names), T.eq(as_int(nums[0][2][0]), n) if nums else False)
+            elif k == "struct":
+                goal = bool(order_ok and not nums and names == want_names)
+            elif k == "option":
+                goal = bool(order_ok and not nums and names == want_names)
+            elif k == "union":
+                goal = T.and_(bool(order_ok and len(nums) == 1 and names == want_names), T.eq(as_int(nums[0][2][0]), tt["items"][var][1]) if nums else False)
+            S.prove(ctx, ob, f"{tag}_path{kk}_writes_the_canonical_layout_of_its_fields", c, goal)
+        S.witness(ctx, ob, f"{tag}_write_returns", [], T.or_(*[p.cond() for p in ps if p.outcome == "return"]))
+    return 1
